@@ -248,6 +248,13 @@ def r2_ctor_setter_parity(ctx):
                 node=(s_nodes[0].test if s_nodes else st.node),
                 facts={"constructor": _fmt(c_cons), "setter": _fmt(s_cons)},
             )
+            # the value that is validated and stored is the value given: the setter's parameter is not replaced by a
+            # truncated / rounded / clipped version of itself before the guard (the constructor validates it as written)
+            for rst, rv in local_defs(st, val):
+                if rv is None:
+                    continue
+                keeps = isinstance(rv, ast.Call) and call_name(rv) in ("float", "tuple", "list", "np.asarray", "np.array", "np.float64") and len(rv.args) == 1 and dotted(rv.args[0]) == val and not rv.keywords
+                ctx.check(keeps, f"{cq}.{name}#as-given", f"`{norm(rst)[:50]}` keeps the value" if keeps else f"the setter replaces the given value by `{norm(rv)[:50]}` before validating / storing it: a value the constructor refuses (e.g. 64.5 bits) is accepted after truncation, or another value than the one assigned is stored", where=st, node=rst)
             # validate-then-store in the setter
             g = ctx.cfg(st)
             sts = [s_ for s_, t in stores(st.node, lambda t: isinstance(t, ast.Attribute) and dotted(t.value) == "self")]
